@@ -97,6 +97,12 @@ class Kinds:
             base, idx = t[1], t[2]
             if idx[0] == "const" and isinstance(idx[1], int):
                 return self._item(base, idx[1], facts, fi, pk, res, d)
+            if idx[0] == "const" and isinstance(idx[1], str):
+                root = base
+                while root[0] == "mut":
+                    root = root[1]
+                if root[0] == "attr" and root[2] == "_cache" and self._is_url(root[1], facts, fi, pk):
+                    return self.cache_key_kind(idx[1])      # what the package stores under that key
             return kd(base)
         if tag == "item":
             return self._item(t[1], t[2], facts, fi, pk, res, d)
@@ -291,6 +297,12 @@ class Kinds:
             name = self._fname(base)
             if name == "split_netloc" and i == 3:
                 return k(NUM)
+            if name == "split_netloc" and i in (0, 1, 2) and base[2]:
+                # pieces of an authority: userinfo / host text of the same standing (encoded authority -> encoded pieces)
+                a = self.kind(base[2][0], facts, fi, pk, res, d)
+                role = "ENC:userinfo" if i in (0, 1) else "ENC:host"
+                out = frozenset(role if x.startswith("ENC") else x for x in a)
+                return self._norm(out | k(NONE_K))
             if name == "split_url" and i == 0:
                 a = self.kind(base[2][0], facts, fi, pk, res, d) if base[2] else k(UNK)
                 return k("ENC:scheme") if a <= {RAW, OPQ, CONST} else a
@@ -300,6 +312,35 @@ class Kinds:
                 if isinstance(s, tuple) and isinstance(i, int) and -len(s) <= i < len(s):
                     return s[i]
         return self.kind(base, facts, fi, pk, res, d)
+
+    def cache_key_kind(self, key):
+        """Union of the kinds of every value the package stores under _cache[key] of a URL (lazy fillers and the parsing
+        constructor): `raw_user` is userinfo text, not a constant."""
+        ck = ("cachekeykind", key)
+        if ck in self._summ:
+            return self._summ[ck]
+        if ck in self._active:
+            return k(CONST)
+        self._active.add(ck)
+        try:
+            out = frozenset()
+            for fi in self.model.all_funcs():
+                if fi.module != "_url":
+                    continue
+                r = analyze(self.model, fi)
+                for e in r.by_kind("store_sub"):
+                    if e.index != ("const", key):
+                        continue
+                    root = e.base
+                    while root[0] == "mut":
+                        root = root[1]
+                    if root[0] == "dict" or (root[0] == "attr" and root[2] == "_cache") or (root[0] == "param" and "cache" in root[1]):
+                        out |= self.kind(e.value, e.state.facts, fi, None, r)
+            res = self._norm(out) if out else k(CONST)
+        finally:
+            self._active.discard(ck)
+        self._summ[ck] = res
+        return res
 
     def _fname(self, t):
         f = t[1]
